@@ -144,14 +144,35 @@ class Tracer:
 
 
 class TracedFile:
+    """Models CPython's buffered binary writer: bytes handed to write() sit in a
+    user-space buffer and reach the file only when the buffer exceeds 8 KiB, on
+    flush() or on close() -- a process killed in between loses them.  The FS
+    event ('write') is emitted when the bytes actually reach the file."""
+
+    BUFSIZE = 8192
+
     def __init__(self, f, rel, tr):
         self.f, self.rel, self.tr = f, rel, tr
+        self.buf = b""
+
+    def _emit(self):
+        if self.buf:
+            self.tr.events.append(("write", self.rel, self.buf))
+            self.f.write(self.buf)
+            self.f.flush()
+            self.buf = b""
 
     def write(self, b):
-        self.tr.events.append(("write", self.rel, bytes(b)))
-        return self.f.write(b)
+        self.buf += bytes(b)
+        if len(self.buf) > self.BUFSIZE:
+            self._emit()
+        return len(b)
+
+    def flush(self):
+        self._emit()
 
     def close(self):
+        self._emit()
         self.tr.events.append(("close", self.rel))
         return self.f.close()
 
@@ -351,14 +372,14 @@ class L(list):
             os._exit(17)
         list.append(self, ev)
 tr.events = L()
-# partial write: wrap TracedFile.write
-orig_write = c15.TracedFile.write
-def write(self, b):
+# partial flush: k bytes of the buffer reach the file, then the process dies
+orig_emit = c15.TracedFile._emit
+def _emit(self):
     idx = len(self.tr.events)
-    if idx == target_event:
-        self.f.write(bytes(b)[:k]); self.f.flush(); os._exit(17)
-    return orig_write(self, b)
-c15.TracedFile.write = write
+    if self.buf and idx == target_event:
+        self.f.write(self.buf[:k]); self.f.flush(); os._exit(17)
+    return orig_emit(self)
+c15.TracedFile._emit = _emit
 with tr:
     writer.search(*c15.QUERY)
 os._exit(0 if target_event >= len(tr.events) else 3)
